@@ -3,6 +3,7 @@ package main
 import (
 	"encoding/json"
 	"fmt"
+	"strconv"
 	"strings"
 
 	"mltwist/internal/riscv"
@@ -30,6 +31,19 @@ type c02Case struct {
 	// Twice: the word is held in one byte buffer that a fresh parser is offered twice; the
 	// second outcome is judged (a refusal must leave the offered bytes as they are)
 	Twice bool `json:"same_buffer_twice,omitempty"`
+	// At: hex address the word is decoded at ("" = 0x1000): acceptance does not depend on it
+	At string `json:"at,omitempty"`
+}
+
+func (c c02Case) addr() model.Addr {
+	if c.At == "" {
+		return 0x1000
+	}
+	a, err := strconv.ParseUint(c.At, 16, 64)
+	if err != nil {
+		panic(err)
+	}
+	return model.Addr(a)
 }
 
 // detailsText returns Details.String(), or a marker if it panics.
@@ -91,6 +105,14 @@ func c02Word(ps *riscv.Parser, c c02Case) (*eng.Fail, bool) {
 	}
 	c.Hex = fmt.Sprintf("%08x", c.Word)
 	bs := rvx.WordBytes(c.Word)
+	if c.At != "" && !c.Twice {
+		f, acc := c02WordBuf(ps, c, bs)
+		if f != nil {
+			f.Sig += " (at an address other than 0x1000)"
+			f.What += " — decoded at address 0x" + c.At
+		}
+		return f, acc
+	}
 	if c.Twice {
 		eng.Catch(func() { ps.Parse(0x1000, bs) })
 		cc := c
@@ -109,7 +131,7 @@ func c02Word(ps *riscv.Parser, c c02Case) (*eng.Fail, bool) {
 func c02WordBuf(ps *riscv.Parser, c c02Case, bs []byte) (*eng.Fail, bool) {
 	if c.Short {
 		var err error
-		p, stack := eng.Catch(func() { _, err = ps.Parse(0x1000, bs[:c.Len]) })
+		p, stack := eng.Catch(func() { _, err = ps.Parse(c.addr(), bs[:c.Len]) })
 		if p != nil {
 			return &eng.Fail{Sig: "short-input panic " + eng.PanicSite(stack), What: fmt.Sprintf("Parse of %d bytes panics: %v", c.Len, p), Case: c}, false
 		}
@@ -120,7 +142,7 @@ func c02WordBuf(ps *riscv.Parser, c c02Case, bs []byte) (*eng.Fail, bool) {
 	}
 	var in model.Instruction
 	var err error
-	p, stack := eng.Catch(func() { in, err = ps.Parse(0x1000, bs) })
+	p, stack := eng.Catch(func() { in, err = ps.Parse(c.addr(), bs) })
 	if p != nil {
 		return &eng.Fail{Sig: "Parse panic " + eng.PanicSite(stack), What: fmt.Sprintf("%s: Parse(%08x) panics: %v", c.Cfg, c.Word, p), Case: c}, false
 	}
@@ -145,7 +167,7 @@ func c02WordBuf(ps *riscv.Parser, c c02Case, bs []byte) (*eng.Fail, bool) {
 		fmt.Sscanf(c.Trail, "%x", &tb)
 		var in2 model.Instruction
 		var err2 error
-		p, stack := eng.Catch(func() { in2, err2 = ps.Parse(0x1000, append(append([]byte{}, bs...), tb...)) })
+		p, stack := eng.Catch(func() { in2, err2 = ps.Parse(c.addr(), append(append([]byte{}, bs...), tb...)) })
 		if p != nil {
 			return &eng.Fail{Sig: "trailing panic " + eng.PanicSite(stack), What: fmt.Sprintf("Parse(%08x+%s) panics: %v", c.Word, c.Trail, p), Case: c}, true
 		}
@@ -290,6 +312,21 @@ func init() {
 					}
 					for _, t := range targets {
 						f, acc := c02Word(nil, c02Case{Cfg: cfg, Word: t, Args: sp})
+						r.Eval(1)
+						if acc {
+							r.Nontrivial(1)
+						}
+						if f != nil {
+							r.Report(f)
+							r.Outcome(f.Sig)
+						}
+					}
+				}
+				// acceptance does not depend on the address: every target at both ends and the middle
+				// of the address space (the last instruction slot is 2^64-4) and at unaligned ones
+				for _, at := range []string{"0", "4", "1002", "fffffffc", "100000000", "7ffffffffffffffc", "8000000000000000", "fffffffffffffff8", "fffffffffffffffc", "fffffffffffffffd", "ffffffffffffffff"} {
+					for _, t := range targets {
+						f, acc := c02Word(&ps, c02Case{Cfg: cfg, Word: t, At: at})
 						r.Eval(1)
 						if acc {
 							r.Nontrivial(1)
